@@ -58,6 +58,23 @@ std::string projectShape(NifFile& nif, NiShape* shape, ContentIds& ids) {
 	lens.add("verts", verts.size()).add("uvs", uvs.size()).add("normals", norms ? norms->size() : 0).add("tangents", tang.size());
 	lens.add("bitangents", bitang.size()).add("colors", cols.size()).add("eye", eye.size());
 	o.raw("lens", lens.done());
+	// per-attribute content ids (C13): what each getter returns, vertex by vertex
+	{
+		JObj acid;
+		auto lst = [&](const void* base, size_t n, size_t elem) {
+			JArr a;
+			for (size_t i = 0; i < n; i++) a.add(ids.of((const char*) base + i * elem, elem));
+			return a.done();
+		};
+		acid.raw("verts", lst(verts.data(), verts.size(), sizeof(Vector3)));
+		acid.raw("uvs", lst(uvs.data(), uvs.size(), sizeof(Vector2)));
+		acid.raw("normals", norms ? lst(norms->data(), norms->size(), sizeof(Vector3)) : std::string("[]"));
+		acid.raw("tangents", lst(tang.data(), tang.size(), sizeof(Vector3)));
+		acid.raw("bitangents", lst(bitang.data(), bitang.size(), sizeof(Vector3)));
+		acid.raw("colors", lst(cols.data(), cols.size(), sizeof(Color4)));
+		acid.raw("eye", lst(eye.data(), eye.size(), sizeof(float)));
+		o.raw("acid", acid.done());
+	}
 	JArr vattr;
 	for (size_t i = 0; i < verts.size(); i++) {
 		std::string d;
